@@ -6,6 +6,7 @@ import (
 	"regexp"
 	"sort"
 	"strings"
+	"sync/atomic"
 	"testing"
 
 	"github.com/elk-language/elk/simhook"
@@ -281,6 +282,33 @@ func genCheckerProgram(r *Rand, maxMethods int) (string, int, int) {
 		m := Pick(r, safe)
 		fmt.Fprintf(&b, "const KC%d: Int = %s\n", i, m.call(fmt.Sprint(r.Range(0, 4))))
 	}
+	// methods whose bodies are the first to mention a set of symbol literals: the symbols are
+	// interned while the bodies are compiled concurrently, and the top level compares them.
+	// __N__ is replaced by a number that is fresh for every check, so that no earlier run
+	// of this process has interned the names.
+	nSym, nSfn := 0, 0
+	if r.Chance(0.6) {
+		nSym, nSfn = r.Range(1, 5), r.Range(2, 6)
+		if r.Chance(0.3) {
+			nSym = r.Range(8, 40)
+		}
+		var sfnRet []int
+		for i := 0; i < nSfn; i++ {
+			var elems []string
+			for k := r.Range(1, nSym+1); k > 0; k-- {
+				elems = append(elems, fmt.Sprintf(":sy__N___%d", r.Intn(nSym)))
+			}
+			ret := r.Intn(nSym)
+			sfnRet = append(sfnRet, ret)
+			fmt.Fprintf(&b, "def sfn%d: Symbol\n  l%d := [%s]\n  l%d.length\n  :sy__N___%d\nend\n", i, i, strings.Join(elems, ", "), i, ret)
+		}
+		for i := 0; i < nSfn; i++ {
+			for j := i + 1; j < nSfn; j++ {
+				fmt.Fprintf(&b, "println \"s%d_%d=\" + (sfn%d() == sfn%d()).inspect\n", i, j, i, j)
+			}
+			fmt.Fprintf(&b, "println \"t%d=\" + (sfn%d() == :sy__N___%d).inspect\n", i, i, sfnRet[i])
+		}
+	}
 	// top level: call everything
 	for i, m := range g.methods {
 		fmt.Fprintf(&b, "println \"%d=${%s}\"\n", i, m.call(fmt.Sprint(r.Range(0, 5))))
@@ -292,6 +320,8 @@ func genCheckerProgram(r *Rand, maxMethods int) (string, int, int) {
 }
 
 type c11Engine struct{}
+
+var chkNonce atomic.Int64
 
 func init() { register(&c11Engine{}) }
 
@@ -376,7 +406,10 @@ func (*c11Engine) Execute(t *testing.T, c *Case) *Verdict {
 	if err := json.Unmarshal(c.Params, &p); err != nil {
 		return &Verdict{Verdict: "harness_error", Detail: err.Error()}
 	}
-	ref := chkReference(t, p.Src)
+	// the reference and the perturbed run get different fresh symbol names: nothing printed depends on them
+	refSrc := strings.ReplaceAll(p.Src, "__N__", fmt.Sprintf("%07d", chkNonce.Add(1)))
+	runSrc := strings.ReplaceAll(p.Src, "__N__", fmt.Sprintf("%07d", chkNonce.Add(1)))
+	ref := chkReference(t, refSrc)
 	if ref.Panic != "" {
 		// the reference configuration itself crashes: not a schedule property (belongs to C01's sequential part)
 		return &Verdict{Verdict: "inconclusive", Class: "reference_panic", Detail: ref.Panic + "\n" + p.Src, Exec: 1}
@@ -397,7 +430,7 @@ func (*c11Engine) Execute(t *testing.T, c *Case) *Verdict {
 			}
 		}()
 		var fn *vm.BytecodeFunction
-		fn, got.Diags, got.Failed = diagStrings(checker.New(), p.Src)
+		fn, got.Diags, got.Failed = diagStrings(checker.New(), runSrc)
 		if got.Failed || fn == nil {
 			return
 		}
@@ -413,7 +446,7 @@ func (*c11Engine) Execute(t *testing.T, c *Case) *Verdict {
 	v.Hash = hashStrings(p.Src, fmt.Sprint(p.Limit), hashDecisions(res.Decisions))
 	v.Nontrivial = res.Switches >= 2 && res.Tasks >= 3
 	v.Extra = map[string]int64{fmt.Sprintf("limit_%d", p.Limit): 1, "methods": int64(p.Methods), "programs_rejected_by_reference": b2i(ref.Failed), "programs_with_warnings_or_errors": b2i(len(ref.Diags) > 0)}
-	v.Sample = map[string]any{"limit": p.Limit, "methods": p.Methods, "tasks": res.Tasks, "switches": res.Switches, "ticks": res.Ticks, "diagnostics": len(ref.Diags), "accepted": !ref.Failed}
+	v.Sample = map[string]any{"limit": p.Limit, "methods": p.Methods, "tasks": res.Tasks, "switches": res.Switches, "lock_points": res.LockPoints, "ticks": res.Ticks, "diagnostics": len(ref.Diags), "accepted": !ref.Failed}
 	bad := func(class, format string, a ...any) *Verdict {
 		v.Verdict, v.Class, v.Sig = "violation", class, class
 		v.Detail = fmt.Sprintf(format, a...) + fmt.Sprintf("\n(limit %d, %d tasks, %d switches)\n--- program:\n%s", p.Limit, res.Tasks, res.Switches, p.Src)
